@@ -2,6 +2,7 @@ pub mod ctx;
 pub mod findings;
 pub mod par;
 pub mod memsource;
+pub mod codec;
 pub mod checks;
 
 pub use ctx::{Ctx, Tier};
